@@ -49,6 +49,15 @@ pub use hook::{DiffHook, NoFinishHook};
 pub use replace::Replace;
 pub use utils::IdentifyDistinct;
 
+/// Verification hooks (only with `--cfg similar_verif`): crate-internal helpers
+/// made reachable so that they can be compared one by one with their models.
+#[cfg(similar_verif)]
+#[allow(missing_docs)]
+pub mod verif_internals {
+    pub use super::compact::{cleanup_diff_ops, verif_shift_diff_ops};
+    pub use super::utils::{common_prefix_len, common_suffix_len, unique, UniqueItem};
+}
+
 #[doc(no_inline)]
 pub use crate::Algorithm;
 
